@@ -4,6 +4,7 @@ import (
 	"fmt"
 	"math/big"
 	"sort"
+	"strings"
 )
 
 // The executable oracles: each is the property statement evaluated on the enumerated real
@@ -20,19 +21,21 @@ func sortedLabels(m map[int]*AllocProj) []int {
 
 // C12: for every open allocation the challenge pool balance equals the sum of the per-blobber
 // outstanding values; a closed allocation has no pool left.
-func checkC12(r *Run, pre, post *Snap, st StepObs) (string, string) {
+func checkC12(r *Run, pre, post *Snap, st StepObs, broken map[int]bool) (string, string) {
 	for _, l := range sortedLabels(post.Allocs) {
 		a := post.Allocs[l]
-		if a == nil {
+		if a == nil || broken[l] {
 			continue
 		}
 		if a.Owner == -2 {
+			broken[l] = true
 			return "pool-survives-close-after-" + st.Kind, fmt.Sprintf("allocation %d removed but its challenge pool node remains with %d", l, a.CP)
 		}
 		if a.Enterprise {
 			continue
 		}
 		if !a.HasCP {
+			broken[l] = true
 			return "pool-missing-after-" + st.Kind, fmt.Sprintf("open allocation %d has no challenge pool", l)
 		}
 		sum := new(big.Int)
@@ -40,16 +43,363 @@ func checkC12(r *Run, pre, post *Snap, st StepObs) (string, string) {
 			sum.Add(sum, new(big.Int).SetUint64(d.CPIV))
 		}
 		if sum.Cmp(new(big.Int).SetUint64(a.CP)) != 0 {
+			broken[l] = true
 			return "cp-ne-sum-after-" + st.Kind, fmt.Sprintf("allocation %d: challenge pool %d != sum of blobber values %s", l, a.CP, sum)
 		}
 	}
 	return "", ""
 }
 
-func check(prop string, r *Run, pre, post *Snap, st StepObs) (string, string) {
+// check evaluates the oracle of one property on one transaction. [broken] remembers the
+// allocations already reported, so that one defect is reported once, at the transaction that
+// caused it, and the remaining allocations of the history keep being checked.
+// C13: per blobber, Allocated = sum of its blobber-allocation sizes over open allocations and
+// stake-pool TotalOffers = sum of their offers; an assignment never takes Allocated above Capacity;
+// closing can always release the offer. [broken] is keyed by -(blobber+1) here.
+func checkC13(r *Run, pre, post *Snap, st StepObs, broken map[int]bool) (string, string) {
+	nb := len(post.Blob)
+	sizes := make([]*big.Int, nb)
+	offers := make([]*big.Int, nb)
+	for i := range sizes {
+		sizes[i], offers[i] = new(big.Int), new(big.Int)
+	}
+	for _, l := range sortedLabels(post.Allocs) {
+		a := post.Allocs[l]
+		if a == nil || a.Owner == -2 {
+			continue
+		}
+		for _, d := range a.BAs {
+			if d.Blobber >= 0 && d.Blobber < nb {
+				sizes[d.Blobber].Add(sizes[d.Blobber], big.NewInt(d.Size))
+				offers[d.Blobber].Add(offers[d.Blobber], new(big.Int).SetUint64(d.Offer))
+			}
+		}
+	}
+	for i, b := range post.Blob {
+		if !b.Present || !b.SPPresent {
+			continue
+		}
+		if !broken[-(i+1)] && sizes[i].Cmp(big.NewInt(b.Allocd)) != 0 {
+			broken[-(i+1)] = true
+			return "allocated-ne-sum-after-" + st.Kind, fmt.Sprintf("blobber %d: allocated %d != sum of sizes over open allocations %s", i, b.Allocd, sizes[i])
+		}
+		if !broken[-(100+i)] && offers[i].Cmp(new(big.Int).SetUint64(b.Offers)) != 0 {
+			broken[-(100+i)] = true
+			return "offers-ne-sum-after-" + st.Kind, fmt.Sprintf("blobber %d: total offers %d != sum of offers over open allocations %s", i, b.Offers, offers[i])
+		}
+		if st.OK && i < len(pre.Blob) && b.Allocd > pre.Blob[i].Allocd && b.Allocd > b.Cap && !broken[-(200+i)] {
+			broken[-(200+i)] = true
+			return "allocated-above-capacity-after-" + st.Kind, fmt.Sprintf("blobber %d: allocated %d > capacity %d after an assignment", i, b.Allocd, b.Cap)
+		}
+	}
+	offersBroken := false
+	for i := range post.Blob {
+		if broken[-(100+i)] {
+			offersBroken = true
+		}
+	}
+	if !st.OK && !offersBroken && (st.Op.K == "finalize" || st.Op.K == "cancel") && strings.Contains(st.Err, "removing offer") && !broken[-1000] {
+		broken[-1000] = true
+		return "close-cannot-release-offer-" + st.Kind, "closing the allocation failed: " + st.Err
+	}
+	return "", ""
+}
+
+func blobRewards(s *Snap, a *AllocProj) *big.Int {
+	sum := new(big.Int)
+	for _, d := range a.BAs {
+		if d.Blobber >= 0 && d.Blobber < len(s.Blob) {
+			sum.Add(sum, new(big.Int).SetUint64(s.Blob[d.Blobber].Rewards))
+		}
+	}
+	return sum
+}
+
+// C14: an allocation is closed once, by an authorised party at the right time; the blobbers get
+// at most the challenge pool plus the cancellation charge; the rest of write pool + challenge
+// pool goes to the owner; the allocation and its pool disappear and nothing touches it later.
+func checkC14(r *Run, pre, post *Snap, st StepObs, broken map[int]bool) (string, string) {
+	l := st.Op.A
+	_, bound := r.Allocs[l]
+	pa := pre.Allocs[l]
+	closedBefore := bound && pa == nil
+	touches := map[string]bool{"wplock": true, "commit": true, "update": true, "read": true, "finalize": true, "cancel": true}
+	if st.OK && closedBefore && touches[st.Op.K] && !(st.Op.K == "wplock" && st.Op.X&xEmptyAlloc != 0) && !broken[1000+l] {
+		if !(st.Op.K == "commit" && (st.Op.X&xMalformed != 0)) {
+			broken[1000+l] = true
+			return "accepted-on-closed-allocation-" + st.Op.K, fmt.Sprintf("%s accepted for allocation %d which was closed before", st.Op.K, l)
+		}
+	}
+	if !(st.Op.K == "finalize" || st.Op.K == "cancel") || !st.OK || pa == nil || broken[l] {
+		return "", ""
+	}
+	fail := func(k, d string) (string, string) { broken[l] = true; return k + "-" + st.Op.K, d }
+	// authorised, at the right time
+	isBlobber := false
+	for _, d := range pa.BAs {
+		if d.Blobber == st.Op.S {
+			isBlobber = true
+		}
+	}
+	if st.Op.K == "finalize" {
+		if !(st.Op.S == pa.Owner || isBlobber) {
+			return fail("unauthorised", fmt.Sprintf("finalize by %d accepted (owner %d)", st.Op.S, pa.Owner))
+		}
+		if st.Now < pa.Exp {
+			return fail("wrong-time", fmt.Sprintf("finalize at %d before expiry %d", st.Now, pa.Exp))
+		}
+	} else {
+		if st.Op.S != pa.Owner {
+			return fail("unauthorised", fmt.Sprintf("cancel by %d accepted (owner %d)", st.Op.S, pa.Owner))
+		}
+		if st.Now > pa.Exp {
+			return fail("wrong-time", fmt.Sprintf("cancel at %d after expiry %d", st.Now, pa.Exp))
+		}
+	}
+	// removed
+	if post.Allocs[l] != nil {
+		return fail("not-removed", fmt.Sprintf("allocation %d or its challenge pool still present after close", l))
+	}
+	// payments
+	paid := new(big.Int).Sub(blobRewards(post, pa), blobRewards(pre, pa))
+	var refund uint64
+	nref := 0
+	for _, t := range st.Transfers {
+		if t.From == refKey(refSC).ID && t.Amount > 0 {
+			nref++
+			refund += t.Amount
+			if t.To != refKey(pa.Owner).ID {
+				return fail("refund-not-to-owner", "close transfers tokens to somebody else than the owner")
+			}
+		}
+	}
+	if nref > 1 {
+		return fail("refunded-twice", fmt.Sprintf("%d refund transfers", nref))
+	}
+	total := new(big.Int).Add(new(big.Int).SetUint64(pa.CP), new(big.Int).SetUint64(pa.WP))
+	out := new(big.Int).Add(paid, new(big.Int).SetUint64(refund))
+	if out.Cmp(total) > 0 {
+		return fail("pays-more-than-pools", fmt.Sprintf("blobbers %s + refund %d > challenge pool %d + write pool %d", paid, refund, pa.CP, pa.WP))
+	}
+	anyDead := false
+	for _, d := range pa.BAs {
+		if d.Blobber < len(pre.Blob) && (pre.Blob[d.Blobber].SPKilled || len(pre.Blob[d.Blobber].Pools) == 0) {
+			anyDead = true
+		}
+	}
+	if !anyDead && out.Cmp(total) != 0 {
+		return fail("refund-not-exact", fmt.Sprintf("blobbers %s + refund %d != challenge pool %d + write pool %d", paid, refund, pa.CP, pa.WP))
+	}
+	// blobbers paid <= earned (what the challenge pool held) + cancellation charge (+1 per blobber for rounding)
+	cost := new(big.Rat)
+	for _, d := range pa.BAs {
+		c := new(big.Rat).SetFrac(new(big.Int).Mul(new(big.Int).SetUint64(d.WP), big.NewInt(d.Size)), big.NewInt(GB))
+		cost.Add(cost, c)
+	}
+	cc := new(big.Rat).Mul(cost, new(big.Rat).SetFloat64(r.H.Conf.CancellationCharge))
+	lim := new(big.Rat).Add(cc, new(big.Rat).SetInt(new(big.Int).SetUint64(pa.CP)))
+	lim.Add(lim, big.NewRat(int64(len(pa.BAs))+1, 1))
+	if new(big.Rat).SetInt(paid).Cmp(lim) > 0 {
+		return fail("blobbers-overpaid", fmt.Sprintf("blobbers received %s > challenge pool %d + cancellation charge %s", paid, pa.CP, cc.FloatString(0)))
+	}
+	if post.Bal[pa.Owner]-pre.Bal[pa.Owner] != refund {
+		return fail("owner-not-credited", fmt.Sprintf("owner balance moved by %d, refund %d", post.Bal[pa.Owner]-pre.Bal[pa.Owner], refund))
+	}
+	return "", ""
+}
+
+// C15: a read marker debits the client's read pool by price x newly read size, credits the
+// blobber, counters only grow, replays charge nothing, foreign signatures are rejected.
+func checkC15(r *Run, pre, post *Snap, st StepObs, broken map[int]bool) (string, string) {
+	for k, v := range pre.ReadCtr {
+		if w, ok := post.ReadCtr[k]; (!ok || w < v) && !broken[-1] {
+			broken[-1] = true
+			return "counter-decreased-after-" + st.Op.K, fmt.Sprintf("read counter %v went from %d to %d", k, v, w)
+		}
+	}
+	if st.Op.K != "read" {
+		return "", ""
+	}
+	op := st.Op
+	key := [3]int{op.B, op.C, op.A}
+	if !st.OK {
+		// a rejected marker must not change pools or counters (the transaction is rolled back as a whole)
+		return "", ""
+	}
+	if broken[-2] {
+		return "", ""
+	}
+	fail := func(k, d string) (string, string) { broken[-2] = true; return k, d }
+	if op.X&xBadSig != 0 {
+		return fail("foreign-signature-accepted", "read marker signed by a foreign key was redeemed")
+	}
+	if op.X&xBadID != 0 {
+		return fail("foreign-client-id-accepted", "read marker whose client id does not belong to the public key was redeemed")
+	}
+	last, had := pre.ReadCtr[key]
+	if had && op.N < last {
+		return fail("older-marker-accepted", fmt.Sprintf("counter %d accepted after %d", op.N, last))
+	}
+	if post.ReadCtr[key] != op.N {
+		return fail("counter-not-recorded", fmt.Sprintf("counter after redeem %d, marker %d", post.ReadCtr[key], op.N))
+	}
+	pa := pre.Allocs[op.A]
+	if pa == nil {
+		return fail("read-on-missing-allocation", "read marker redeemed for an allocation that does not exist")
+	}
+	var price uint64
+	found := false
+	for _, d := range pa.BAs {
+		if d.Blobber == op.B {
+			price, found = d.RP, true
+		}
+	}
+	if !found {
+		return fail("read-for-foreign-blobber", "blobber not in allocation")
+	}
+	charged := new(big.Int).Sub(new(big.Int).SetUint64(pre.RP[op.C]), new(big.Int).SetUint64(post.RP[op.C]))
+	n := op.N - last
+	exact := new(big.Int).Mul(new(big.Int).SetUint64(price), big.NewInt(n))
+	exact.Div(exact, big.NewInt(16384)) // CHUNK / GB = 1 / 16384
+	diff := new(big.Int).Sub(charged, exact)
+	tol := new(big.Int).Rsh(exact, 51)
+	tol.Add(tol, big.NewInt(1))
+	if diff.CmpAbs(tol) > 0 {
+		if n >= 1<<47 {
+			// numReads * CHUNK_SIZE no longer fits int64
+			return fail("charge-wraps-for-counter-delta-above-2^47", fmt.Sprintf("charged %s for %d blocks at price %d (exact %s)", charged, n, price, exact))
+		}
+		return fail("charge-not-price-times-size", fmt.Sprintf("charged %s, price %d x %d blocks = %s", charged, price, n, exact))
+	}
+	if n == 0 && charged.Sign() != 0 {
+		return fail("replay-charged", fmt.Sprintf("replayed counter charged %s", charged))
+	}
+	for ref, v := range pre.RP {
+		if ref != op.C && post.RP[ref] != v {
+			return fail("other-read-pool-changed", fmt.Sprintf("read pool of %d changed", ref))
+		}
+	}
+	if op.B < len(pre.Blob) && !pre.Blob[op.B].SPKilled && len(pre.Blob[op.B].Pools) > 0 {
+		cred := new(big.Int).Sub(new(big.Int).SetUint64(post.Blob[op.B].Rewards), new(big.Int).SetUint64(pre.Blob[op.B].Rewards))
+		if cred.Cmp(charged) != 0 {
+			return fail("blobber-credit-ne-charge", fmt.Sprintf("blobber credited %s, client charged %s", cred, charged))
+		}
+	}
+	return "", ""
+}
+
+// C24: free-storage markers.
+func checkC24(r *Run, pre, post *Snap, st StepObs, broken map[int]bool) (string, string) {
+	if st.Op.K != "freealloc" || !st.OK || broken[-1] {
+		return "", ""
+	}
+	op := st.Op
+	fail := func(k, d string) (string, string) { broken[-1] = true; return k, d }
+	rec := op.C
+	if rec == 0 {
+		rec = op.S
+	}
+	if rec != op.S {
+		return fail("redeemed-by-non-recipient", fmt.Sprintf("marker for %d redeemed by %d", rec, op.S))
+	}
+	ass := refAssigner + op.B
+	pa := pre.Ass[ass]
+	if pa == nil {
+		return fail("unregistered-assigner", "marker of an unregistered assigner redeemed")
+	}
+	if op.X&xBadSig != 0 {
+		return fail("forged-signature-accepted", "marker not signed by the assigner redeemed")
+	}
+	for _, n := range pa.Nonces {
+		if n == op.N {
+			return fail("nonce-redeemed-twice", fmt.Sprintf("nonce %d redeemed again", op.N))
+		}
+	}
+	grant, ok := parseZCN(op.F)
+	if !ok {
+		return fail("unparsable-amount-accepted", "marker amount not a valid ZCN value")
+	}
+	if grant > pa.Indiv {
+		return fail("grant-above-individual-limit", fmt.Sprintf("grant %d > individual limit %d", grant, pa.Indiv))
+	}
+	qa := post.Ass[ass]
+	if qa == nil || qa.Redeemed != pa.Redeemed+grant {
+		return fail("redeemed-not-advanced-by-grant", "current_redeemed did not grow by the grant")
+	}
+	if qa.Redeemed > qa.Total {
+		return fail("redeemed-above-total-limit", fmt.Sprintf("redeemed %d > total limit %d", qa.Redeemed, qa.Total))
+	}
+	seen := false
+	for _, n := range qa.Nonces {
+		if n == op.N {
+			seen = true
+		}
+	}
+	if !seen {
+		return fail("nonce-not-recorded", "redeemed nonce not recorded")
+	}
+	if a := post.Allocs[op.A]; a == nil || a.Owner != rec {
+		return fail("allocation-not-for-recipient", "the created allocation is not owned by the recipient")
+	}
+	return "", ""
+}
+
+// liabilities of the storage contract: stake, write/read/challenge pools, unpaid rewards
+func liabilities(s *Snap) *big.Int {
+	l := new(big.Int)
+	add := func(v uint64) { l.Add(l, new(big.Int).SetUint64(v)) }
+	for _, a := range s.Allocs {
+		if a == nil {
+			continue
+		}
+		if a.Owner != -2 {
+			add(a.WP)
+		}
+		if a.HasCP {
+			add(a.CP)
+		}
+	}
+	for _, b := range s.Blob {
+		add(b.Rewards)
+		for _, p := range b.Pools {
+			add(p)
+		}
+	}
+	for _, v := range s.Val {
+		add(v.Rewards)
+		add(v.Stake)
+	}
+	for _, v := range s.RP {
+		add(v)
+	}
+	return l
+}
+
+// C09: per transaction, the growth of what the contract owes is covered by the growth of its wallet
+// (none of the modelled operations accrues minted rewards).
+func checkC09(r *Run, pre, post *Snap, st StepObs, broken map[int]bool) (string, string) {
+	dl := new(big.Int).Sub(liabilities(post), liabilities(pre))
+	dw := new(big.Int).Sub(new(big.Int).SetUint64(post.Bal[refSC]), new(big.Int).SetUint64(pre.Bal[refSC]))
+	if dl.Cmp(dw) > 0 {
+		return "liabilities-grow-unbacked-after-" + st.Kind, fmt.Sprintf("liabilities grew by %s, wallet by %s", dl, dw)
+	}
+	return "", ""
+}
+
+func check(prop string, r *Run, pre, post *Snap, st StepObs, broken map[int]bool) (string, string) {
 	switch prop {
 	case "C12":
-		return checkC12(r, pre, post, st)
+		return checkC12(r, pre, post, st, broken)
+	case "C13":
+		return checkC13(r, pre, post, st, broken)
+	case "C14":
+		return checkC14(r, pre, post, st, broken)
+	case "C15":
+		return checkC15(r, pre, post, st, broken)
+	case "C24":
+		return checkC24(r, pre, post, st, broken)
+	case "C09":
+		return checkC09(r, pre, post, st, broken)
 	}
 	return "", ""
 }
